@@ -3,6 +3,7 @@ package checks
 import (
 	"fmt"
 	"os"
+	"regexp"
 	"sort"
 	"strings"
 	"time"
@@ -230,51 +231,11 @@ func finishChains(run *core.Run, outs []*BatchOutcome, opts ChainOpts,
 	for _, o := range outs {
 		if o.Status != "ok" {
 			if o.Status == "analyzer-panic" {
-				// isolate: re-run every chain of the crashing batch alone
-				var singles []*gen.Batch
-				for _, ch := range o.Batch.Chains {
-					singles = append(singles, &gen.Batch{Chains: []gen.Chain{ch}})
-				}
-				souts := ProcessBatches(run, fmt.Sprintf("crash%d", o.Index), singles, opts)
-				isolated := false
-				for _, so := range souts {
-					if so.Status != "analyzer-panic" {
-						continue
-					}
-					isolated = true
-					sig := "analyzer-panic:" + gen.Key(so.Batch.Chains[0].Links) + sigSuffix
-					if run.IsKnown(sig) {
-						continue
-					}
-					fl := copyFiles(so)
-					for n, c := range gen.RuntimeFiles() {
-						fl["prog/"+n] = c
-					}
-					run.Violation(sig, fmt.Sprintf("analyzer crashed on chain %v:\n%s", so.Batch.Chains[0].Links, so.Detail), fl)
-				}
-				if !isolated {
-					// interaction between chains: delta-debug the batch down to a small crashing set
-					min := minimizeCrash(run, o.Batch.Chains, opts, fmt.Sprintf("dd%d", o.Index))
-					var keys []string
-					for _, ch := range min {
-						keys = append(keys, gen.Key(ch.Links))
-					}
-					sort.Strings(keys)
-					sig := "analyzer-panic:{" + strings.Join(keys, " + ") + "}" + sigSuffix
-					if len(min) > 6 {
-						sig = "analyzer-panic:batch" + sigSuffix
-					}
-					if !run.IsKnown(sig) {
-						mb := &gen.Batch{Chains: min}
-						fl := map[string]string{}
-						for n, c := range mb.Files() {
-							fl["prog/"+n] = c
-						}
-						for n, c := range gen.RuntimeFiles() {
-							fl["prog/"+n] = c
-						}
-						run.Violation(sig, fmt.Sprintf("analyzer crashed on a generated batch; smallest crashing set of chains found: %v\n%s", keys, o.Detail), fl)
-					}
+				// a crash is identified by where it happens (panic message class + innermost analyzer frames), not by
+				// which chains trigger it: a change that makes the analyzer crash somewhere else has another signature
+				sig := "analyzer-panic:" + crashSignature(o.Detail) + sigSuffix
+				if !run.IsKnown(sig) {
+					run.Violation(sig, "analyzer crashed on a generated batch:\n"+o.Detail, withRT(o.Files))
 				}
 			} else {
 				run.Inconclusive(fmt.Sprintf("batch %d: %s: %s", o.Index, o.Status, firstLine(o.Detail)))
@@ -443,4 +404,34 @@ func secondSourcePhase(run *core.Run, links []string, tier string) {
 		}
 	}
 	run.Cov["two_problem_obligations_checked"] = checked
+}
+
+var reFrame2 = regexp.MustCompile(`(?m)^(github\.com/awslabs/ar-go-tools/[^\s(]+(?:\([^)]*\))?[^\s(]*)\(`)
+
+// crashSignature reduces a Go crash dump to "<message class>@<innermost three analyzer frames>".
+func crashSignature(dump string) string {
+	msg := "panic"
+	for _, line := range strings.Split(dump, "\n") {
+		if strings.HasPrefix(line, "panic: ") || strings.HasPrefix(line, "fatal error: ") {
+			msg = line
+			break
+		}
+	}
+	// strip volatile parts of the message (addresses, node ids, quoted values)
+	msg = regexp.MustCompile(`0x[0-9a-f]+|#[0-9]+\.[0-9]+|"[^"]*"|\[[^\]]*\]`).ReplaceAllString(msg, "_")
+	if len(msg) > 80 {
+		msg = msg[:80]
+	}
+	var frames []string
+	for _, m := range reFrame2.FindAllStringSubmatch(dump, -1) {
+		f := strings.TrimPrefix(m[1], "github.com/awslabs/ar-go-tools/")
+		if len(frames) > 0 && frames[len(frames)-1] == f {
+			continue
+		}
+		frames = append(frames, f)
+		if len(frames) == 3 {
+			break
+		}
+	}
+	return strings.ReplaceAll(msg, " ", "_") + "@" + strings.Join(frames, "<")
 }
